@@ -198,6 +198,13 @@ def _run_case(case: Case):
                 if outcome[0] == "exc":
                     e = outcome[1]
                     rec = {"type": type(e).__name__, "msg": str(e)[:300], "expected": isinstance(e, case.expect_exc)}
+                    frames = traceback.extract_tb(e.__traceback__)
+                    in_repo = any("/pfhedge/" in f.filename for f in frames)
+                    if not rec["expected"] and not in_repo:
+                        # raised by the harness / engine itself, not by the code under test: a harness error, never a finding
+                        out["errors"].append({"kind": "engine", "msg": "%s in harness code: %s" % (type(e).__name__, str(e)[:200]),
+                                              "trace": "".join(traceback.format_exception(type(e), e, e.__traceback__))[-1500:]})
+                        rec["expected"] = True
                     if not rec["expected"]:
                         # unexpected exception: finding candidate -> replay with a model of the path
                         rec["trace"] = "".join(traceback.format_exception(type(e), e, e.__traceback__))[-1500:]
